@@ -178,7 +178,7 @@ CLAIMED["C08"] = dict(
         "undecorated twins). Partial: that the final binding equals Python's binding of the original call with each parameter "
         "converted, Param aliases, instance / class / static methods, return annotations, coroutines, generators and async generators "
         "(lazy and eager) are decided on the implementation by the signature-bind and results-and-generators oracle suites (CPython's "
-        "binding of the undecorated twin as the oracle), not proved. Not modelled: typed **kwargs, Param dependencies, calls giving one "
+        "binding of the undecorated twin as the oracle), not proved. Not modelled: typed **kwargs, Param dependencies (judged by the signature-bind oracle only), calls giving one "
         "parameter twice (Python rejects them), the instance-method guess for '@staticmethod over @utype.parse' with a bare first "
         "parameter. Excluded (underscore-prefixed) parameters given by keyword are dropped by design (tests/test_func.py) and are not "
         "generated. Two genuine defects repaired in /repo (fix: 43b9b80 and the positional-only default commit).",
